@@ -74,10 +74,21 @@ def corpus_files(small=False):
 
 @hs.composite
 def base_files(draw):
-    which = draw(hs.integers(0, 9))
+    which = draw(hs.integers(0, 10))
 
     if which < 2:
         return draw(hs.sampled_from(corpus_files()))
+
+    if which == 10:
+        # a random legal walk over the section table, minimal content
+        from dxv.props import c10
+        n = draw(hs.integers(3, 40))
+        walk = ['diffx']
+
+        for _ in range(n):
+            walk.append(draw(hs.sampled_from(spec.TABLE[walk[-1]])))
+
+        return b''.join(c10.section_bytes(sid) for sid in walk)
 
     if which < 6:
         doc = draw(foreign.docs(max_changes=2, max_files=2,
@@ -104,7 +115,7 @@ def corrupted(draw):
              'range-delete', 'line-delete', 'line-dup', 'cr-insert',
              'truncate', 'header-newline', 'container-attr',
              'container-attr', 'content-replace', 'content-replace',
-             'long-run', 'blank-run']))
+             'long-run', 'blank-run', 'two-options']))
         headers = [m for m in re.finditer(rb'(?m)^#\.{0,3}[a-z]+:[^\n]*\n',
                                           bytes(data))]
 
@@ -118,6 +129,30 @@ def corrupted(draw):
                 v = draw(hs.sampled_from(HOSTILE_VALUES)).encode('latin-1')
                 s = m.start() + o.start(2)
                 data[s:s + len(o.group(2))] = v
+        elif kind == 'two-options' and headers:
+            # two options of one header become hostile at the same time
+            m = draw(hs.sampled_from(headers))
+            line = m.group(0)
+            body = line.rstrip(b'\r\n')
+            tail = line[len(body):]
+            colon = body.index(b':') + 1
+            keys = draw(hs.lists(hs.sampled_from(
+                ['length', 'indent', 'encoding', 'line_endings', 'format']),
+                min_size=2, max_size=2, unique=True))
+            nums = ['4294967295', '4294967296', '18446744073709551616',
+                    '99999999999999999999', '2147483648', '0', '-1', '1']
+            pairs = []
+
+            for k in keys:
+                pool = nums if k in ('length', 'indent') else HOSTILE_VALUES
+                v = draw(hs.sampled_from(pool)) or 'v'
+                pairs.append(k.encode() + b'=' + v.encode('latin-1'))
+
+            rest = [p_ for p_ in body[colon:].strip().split(b', ')
+                    if p_ and p_.split(b'=')[0].decode('latin-1')
+                    not in keys]
+            data[m.start():m.end()] = (body[:colon] + b' ' +
+                                       b', '.join(pairs + rest) + tail)
         elif kind == 'option-add' and headers:
             m = draw(hs.sampled_from(headers))
             k = draw(hs.sampled_from(HOSTILE_KEYS)).encode('ascii')
